@@ -40,7 +40,7 @@ def _engine_tasks(what, args):
     if what == "C12":
         from . import schedsim as eng
         n = args.runs or (1200 if args.tier == "quick" else 30000)
-        parts = set(os.environ.get("VERIF_C12_PARTS", "random,site,callrace,datascale,presweep").split(","))   # debugging aid
+        parts = set(os.environ.get("VERIF_C12_PARTS", "random,site,callrace,datascale,presweep,kill").split(","))   # debugging aid
         tasks = driver.seeds_for(args.seed, "C12", n) if "random" in parts else []
         if not args.runs and not getattr(args, "no_sweep", False) and args.what != "digests":
             if args.tier == "quick" and "site" in parts:
@@ -49,6 +49,8 @@ def _engine_tasks(what, args):
                 tasks += call_race_sweep_tasks(eng, args)
             if "datascale" in parts:
                 tasks += data_scale_sweep_tasks(eng, args)
+            if "kill" in parts:
+                tasks += kill_sweep_tasks(eng, args)
         share = float(os.environ.get("VERIF_INSTR_SHARE", "0.3" if args.tier == "thorough" else "0"))
         if share > 0:
             tasks = [{**t, "cfg": {"instr_share": share}} for t in tasks]
@@ -255,6 +257,37 @@ def data_scale_sweep_tasks(eng, args):
         for k in range(1, min(solo["steps"], 200) + 1):
             tasks.append({"scenario": {**base, "seed": f"datascale:{ci}:{k}",
                                        "policy": {"kind": "sweep1", "t": 0, "k": k}, "sweep": True}})
+    return tasks
+
+
+C12_KILL_SWEEP = [(0, 0), (3, 0), (9, 0), (11, 1), (13, 1)]     # (base index, thread that is interrupted)
+
+
+def kill_sweep_tasks(eng, args):
+    """Crash points under concurrency: the other thread is parked once inside the lookup/creation/caching code (seeded
+    hot site), then the victim runs and is interrupted at its k-th function entry (about 50 evenly spaced k per
+    base, both exception shapes), goes on with nothing else to do, and the parked thread resumes."""
+    import random
+
+    from .procpool import fork_call
+    rng = random.Random(args.seed ^ 0xDEAD)
+    tasks = []
+    per_base = 50 if args.tier == "quick" else 600
+    for bi, victim in C12_KILL_SWEEP:
+        base = _sweep_base(bi)
+        probe = {**base, "policy": {"kind": "solo"}, "kill": {"t": victim, "frac": 0.0}}
+        try:
+            solo = fork_call(eng.compute_ref, (eng._solo_desc(probe, victim),), 120.0, "solo")
+        except Exception:  # noqa: BLE001
+            continue
+        n = solo.get("entries", 0)
+        if n < 2:
+            continue
+        other = 1 - victim
+        for j, k in enumerate(range(1, n + 1, max(1, n // per_base))):
+            tasks.append({"scenario": {**base, "seed": f"kill:{bi}:{victim}:{k}",
+                                       "policy": {"kind": "sweep1", "t": other, "mode": "hot", "frac": rng.random(), "f2": rng.random()},
+                                       "kill": {"t": victim, "k": k, "exc": "base" if j % 3 else "recursion"}, "sweep": True}})
     return tasks
 
 
